@@ -55,7 +55,40 @@ SYN = {
         S(["vlan 2"], [S(["name two", "name deux"])]),
         S(["vlan 3"]),
     ]),
+    # concrete hardware models whose rulebook text has model-specific sections (%if hw.Huawei.CE / NE / Quidway ...): both
+    # front ends must use the rulebook of THAT model
+    "huawei-ce": ("model:Huawei CE6870", [
+        S(["interface 10GE1/0/1"], [
+            S(["trust 8021p", "trust dscp"]),
+            S(["stp edged-port enable", "stp edged-port disable"]),
+            S(["description a", "description b"]),
+        ]),
+        S(["sysname a", "sysname b"]),
+    ]),
+    "huawei-quidway": ("model:Huawei S5700-28C-EI", [
+        S(["interface GigabitEthernet0/0/1"], [
+            S(["trust 8021p", "trust dscp"]),
+            S(["mac-address trap notification learn", "mac-address trap notification all"]),
+            S(["description a", "description b"]),
+        ]),
+        S(["sysname a", "sysname b"]),
+    ]),
+    "huawei-ne": ("model:Huawei NE40E", [
+        S(["interface GE0/1/0"], [
+            S(["trust 8021p", "trust dscp"]),
+            S(["description a", "description b"]),
+        ]),
+        S(["sysname a", "sysname b"]),
+    ]),
 }
+
+
+def _hw_of(spec):
+    if spec.startswith("model:"):
+        from annet.annlib.netdev.views.hardware import HardwareView
+        return HardwareView(spec[6:], None)
+    from vt.common import make_hw
+    return make_hw(spec)
 
 _ctx = {}
 
@@ -166,8 +199,7 @@ def h_syn(case: int) -> bool:
     """
     c = pick(case, SHI, SLO)
     with NoTracing():
-        from vt.common import make_hw
-        hw = make_hw(SV)
+        hw = _hw_of(SV)
         i, j = c % NS, c // NS
         ok, detail, kind, ncmd = check_pair(hw, unrank(SSLOTS, i), unrank(SSLOTS, j))
         if detail is not None:
@@ -261,7 +293,7 @@ def replay(obligation, case):
         return {"ok": ok, "detail": detail, "fingerprint": "C16:workers:%s" % case["vendor"]}
     if "syn" in case:
         v, slots = SYN[case["syn"]]
-        ok, detail, kind, _ = check_pair(make_hw(v), unrank(slots, case["i"]), unrank(slots, case["j"]))
+        ok, detail, kind, _ = check_pair(_hw_of(v), unrank(slots, case["i"]), unrank(slots, case["j"]))
         return {"ok": ok, "detail": detail, "fingerprint": "C16:%s:%s" % (case["syn"], kind)}
     v = case["vendor"]
     ok, detail, kind, _ = check_pair(C[v]["hw"], C[v]["trees"][case["i"]], C[v]["trees"][case["j"]])
